@@ -11,7 +11,7 @@
    - what the converter prints for an integer is read back by IF and set /A as that integer (C05_number_roundtrip).
    The statement over whole programs (C05_full_statement: the script's output under the model equals the reference
    semantics and the Bash run) is decided on generated programs by every run of the check, not proved. *)
-From Verif Require Import Base.Bytestr Base.DecFacts Sem.Src Cmd.CmdModel Cmd.CmdFacts.
+From Verif Require Import Base.Bytestr Base.DecFacts Front.Ast Back.Transpile Back.BatchConv Back.TraverseInv Back.BatchLabels Sem.Src Cmd.CmdModel Cmd.CmdFacts.
 From Coq Require Import ZArith.
 Open Scope N_scope.
 
@@ -40,6 +40,32 @@ Theorem C05_label_found : forall sc label i start,
   beq want kw_eof = false -> occurs_once (sc_info sc) want i -> find_label sc label start = Some i.
 Proof. exact find_label_once. Qed.
 Print Assumptions C05_label_found.
+
+(* Label allocation (the state this property is anchored in: ifCounter, forCounter, endLabels, ifs): for EVERY program
+   whose function names do not start with an underscore, each label of the allocated families _i<n>, _f<n>, _e<n> is
+   defined at most once in the code of the emitted script -- any nesting and sequencing of loops and conditionals, any
+   number of functions -- and the labels the counters would hand out next are unused. *)
+Theorem C05_labels_unique : forall body script st,
+  emit_batch body = TOk script st -> names_ok_all plain_name body = true ->
+  forall c k, fam c -> (cnt (lab c k) (concat (rev (w_funcs_code st)) ++ w_global st) <= 1)%nat.
+Proof. exact batch_family_labels_unique. Qed.
+Print Assumptions C05_labels_unique.
+
+Theorem C05_next_labels_fresh : forall body script st,
+  emit_batch body = TOk script st -> names_ok_all plain_name body = true ->
+  forall k, (w_if_counter st <= k)%nat -> cnt (lab 105 k) (concat (rev (w_funcs_code st)) ++ w_global st) = 0%nat.
+Proof. exact batch_next_labels_fresh. Qed.
+Print Assumptions C05_next_labels_fresh.
+
+(* non-vacuity: two sequential loops and a nested one get three different label pairs *)
+Example C05_labels_sample :
+  let loop b := SFor None (EBool true) None b in
+  match emit_batch [loop [SBreak]; loop [loop [SContinue]; SBreak]] with
+  | TOk _ st => map (fun k => cnt (lab 102 k) (concat (rev (w_funcs_code st)) ++ w_global st)) [0; 1; 2; 3]%nat = [1; 1; 1; 0]%nat
+                /\ map (fun k => cnt (lab 101 k) (concat (rev (w_funcs_code st)) ++ w_global st)) [0; 1; 2; 3]%nat = [1; 1; 1; 0]%nat
+  | _ => False
+  end.
+Proof. vm_compute. split; reflexivity. Qed.
 
 (* non-vacuity: a small script runs under the model *)
 Example C05_sample : cmd_run 100 demo_script = CmdRan (bs "f a 2" ++ [10] ++ bs "42 lss 5" ++ [10]) 3.
